@@ -393,6 +393,10 @@ class ExprMixin:
             if all(v.const is not None for v in vals):
                 return [(s, SV(CONST, None, Const([v.const.v for v in vals]), extra=vals))]
             vals = [self.reify(v) for v in vals]
+            # an Optional element that is known (path condition + short-circuit guards) not to be None is its value:
+            # `[x] if x else []` is a list of the value type
+            vals = [sym.opt_val(v) if isinstance(v.t, TOpt) and not s.spec and self.implied(s, z3.Not(sym.opt_is_none(v))) else v
+                    for v in vals]
             t = vals[0].t
             for v in vals[1:]:
                 if v.t != t:
